@@ -21,7 +21,7 @@ func TestVerif(t *testing.T) {
 		Level: "fault_enumeration",
 		Rule: "every scripted history of length <= 4 (thorough 5) over {Push x5, Tag x6, Untag x2, Delete x4, GC, SaveIndex} on an initialised OCI layout (AutoSaveIndex on, AutoGC on and off); the last operation is the interrupted one: " +
 			"for every k from 1 to the number of mutating file-system operations it issues, the disk is frozen before the k-th one (every later operation fails without touching the disk, as after SIGKILL), " +
-			"then the directory is reopened and checked: opens, every blob file matches its name, every index entry names an existing blob, tag map = before or after, earlier effects present. " +
+			"and once more with the process ending right after the call returned; then the directory is reopened and checked: opens, every blob file matches its name, every index entry names an existing blob, tag map = before or after, earlier effects present. " +
 			"concurrent: six pairs of non-conflicting operations (tag|tag, tag|push manifest, untag|tag, push|push, tag|SaveIndex, push blob|tag) issued by two goroutines on one open store under every schedule within D<=2 [thorough D<=3] around three base schedulers x every crash point k = 0..16 counted over the mutating file-system operations of both (0: no crash): the directory reopens, blobs and index are valid, and the effect of every operation that returned nil is present. " +
 			"evaluations = crash points explored; non-trivial = distinct (history, k) with k after the first mutating operation of the interrupted call",
 		Assumptions: []string{
@@ -155,6 +155,21 @@ func run(c *driver.Ctx, d *DAG, ops []Op, autogc bool, depth int) (func(), func(
 		n1 := planA.NMut
 		os.RemoveAll(dirA)
 		c.Count("histories", 1)
+		// the process ends right after the last operation returned (no further system call is lost): what is
+		// on disk must already be the state after it - also when the operation issued no write at all
+		{
+			plan := &vos.Plan{Budget: 50000}
+			dir, _, _ := replay(d, hist, autogc, plan, len(hist))
+			c.Evals++
+			c.Count("crash_points", 1)
+			desc := fmt.Sprintf("history: %s\nthe process ends after the last call returned (it issued %d mutating file-system operations)", hs, n1-n0)
+			f := recoverCheck(d, dir, after, after, desc, "return of the last call")
+			os.RemoveAll(dir)
+			if f != nil {
+				fail = f
+				return
+			}
+		}
 		for k := n0 + 1; k <= n1; k++ {
 			plan := &vos.Plan{Budget: 50000, CrashAt: k}
 			dir, _, _ := replay(d, hist, autogc, plan, len(hist))
